@@ -62,7 +62,11 @@ class CombinedAnalysis(Analysis):
         from .model_analysis import ModelAnalysis, CombinedModelAnalysis
         from .indexed import IndexedAnalysis
 
-        if any(isinstance(analysis, ModelAnalysis) for analysis in analyses):
+        if issubclass(CombinedModelAnalysis, cls) and any(
+            isinstance(analysis, ModelAnalysis) for analysis in analyses
+        ):
+            # only replace classes CombinedModelAnalysis specialises; a FreeParameterAnalysis
+            # rebuilt from ModelAnalysis members (modify_before_fit) must stay one
             return object.__new__(CombinedModelAnalysis)
         if cls is CombinedAnalysis and any(
             isinstance(analysis, IndexedAnalysis)
